@@ -22,6 +22,7 @@ import Glom.Model.C10Env
   Obs:   {"ok":V,"log":[n…]} | {"exc":cls,"glom":b,"match":b,"typematch":b,"typeerror":b,"pae":b,"check":b,"log":[n…]}
          | {"ctor":cls}
   case:  {"spec":Spec | "ops":OpExpr, "target":V, "impl":Obs, "impl_bare":Obs|null}
+         | {"spec":Spec | "ops":OpExpr, "targets":[V…], "impl_seq":[Obs…]}   -- one spec object, consecutive calls
 -/
 namespace Glom.C10.Driver
 open Lean Glom Glom.MV Glom.C10
@@ -246,42 +247,81 @@ def modelObs (s : Spec) (t : V) : Obs :=
   | some e => .ctor e.cls
   | none => observe genEnv (eval genEnv s t)
 
-def run (j : Json) : Except String Json := do
-  let target ← vOfJson (← j.getObjVal? "target")
-  let implObs ← obsOfJson (← j.getObjVal? "impl")
-  let bare ← optField j "impl_bare" obsOfJson
+/-- what is judged: a constructor-built spec or an operator expression -/
+inductive Subject where
+  | spec (s : Spec)
+  | ops (e : OpExpr)
+
+structure Judgement where
+  agree : Bool
+  holds : Bool
+  modelHolds : Bool
+  model : Obs
+  tag : String
+
+/-- model and checker for one (subject, target, observation[, bare observation]) -/
+def judge (sub : Subject) (target : V) (implObs : Obs) (bare : Option Obs) : Judgement :=
   let ct := genEnv.cls
-  if let .ok oj := j.getObjVal? "ops" then
-    -- operator-built tree
-    let e ← opsOfJson oj
-    if hasTOperand e then
-      return Json.mkObj [("skip", true), ("why", "T expression as an operand of & | ~ (recorded by TType: C02)")]
-    if opsOutside e then
-      return Json.mkObj [("skip", true), ("why", "operator applied to plain Python values only")]
+  match sub with
+  | .ops e =>
     let built := build genEnv.boolOps true e
     let mObs := match built with
       | .error x => Obs.ctor x.cls
       | .ok s => modelObs s target
-    let holds := checkOps ct e target implObs &&
-      (match bare with | some b => checkOps ct e target b | none => true)
-    let agree := obsAgree mObs implObs && (match bare with | some b => obsAgree mObs b | none => true)
-    let tag := match build expectedBoolOps false e with
-      | .error x => s!"ops:ctor-{x.cls}"
-      | .ok s => s!"ops-{specHead s}:{verdictTag (denote ct s target).1}"
-    return Json.mkObj [("agree", agree), ("holds", holds), ("model", obsToJson mObs), ("branch", tag),
-      ("wf", WF genEnv),
-      ("model_holds", checkOps ct e target mObs)]
-  else
-    let s ← specOfJson (← j.getObjVal? "spec")
+    { agree := obsAgree mObs implObs && (match bare with | some b => obsAgree mObs b | none => true)
+      holds := checkOps ct e target implObs &&
+        (match bare with | some b => checkOps ct e target b | none => true)
+      modelHolds := checkOps ct e target mObs
+      model := mObs
+      tag := match build expectedBoolOps false e with
+        | .error x => s!"ops:ctor-{x.cls}"
+        | .ok s => s!"ops-{specHead s}:{verdictTag (denote ct s target).1}" }
+  | .spec s =>
     let mObs := modelObs s target
-    let holds := checkC10 ct s target implObs &&
-      (match bare with | some b => checkC10 ct s target b | none => true)
-    let agree := obsAgree mObs implObs && (match bare with | some b => obsAgree mObs b | none => true)
-    let tag := match ctorErr s with
-      | some e => s!"{specHead s}:ctor-{e.cls}"
-      | none => s!"{specHead s}:{verdictTag (denote ct s target).1}"
-    return Json.mkObj [("agree", agree), ("holds", holds), ("model", obsToJson mObs), ("branch", tag),
-      ("wf", WF genEnv),
-      ("model_holds", checkC10 ct s target mObs)]
+    { agree := obsAgree mObs implObs && (match bare with | some b => obsAgree mObs b | none => true)
+      holds := checkC10 ct s target implObs &&
+        (match bare with | some b => checkC10 ct s target b | none => true)
+      modelHolds := checkC10 ct s target mObs
+      model := mObs
+      tag := match ctorErr s with
+        | some e => s!"{specHead s}:ctor-{e.cls}"
+        | none => s!"{specHead s}:{verdictTag (denote ct s target).1}" }
+
+def run (j : Json) : Except String Json := do
+  let sub ← (do
+    if let .ok oj := j.getObjVal? "ops" then
+      if oj != Json.null then return Subject.ops (← opsOfJson oj)
+    return Subject.spec (← specOfJson (← j.getObjVal? "spec")) : Except String Subject)
+  if let .ops e := sub then
+    if hasTOperand e then
+      return Json.mkObj [("skip", true), ("why", "T expression as an operand of & | ~ (recorded by TType: C02)")]
+    if opsOutside e then
+      return Json.mkObj [("skip", true), ("why", "operator applied to plain Python values only")]
+  -- the same spec OBJECT evaluated on several targets, one call after the other: every call
+  -- must decide its own target as if it were the only one (per-target reference)
+  if let .ok (.arr ts) := j.getObjVal? "targets" then
+    let targets ← ts.toList.mapM vOfJson
+    let obss ← (← arrOf (← j.getObjVal? "impl_seq")).mapM obsOfJson
+    if obss.length != targets.length then
+      -- the constructor failed: one observation
+      match obss, targets with
+      | [o], t :: _ =>
+        let r := judge sub t o none
+        return Json.mkObj [("agree", r.agree), ("holds", r.holds), ("model", obsToJson r.model),
+          ("branch", Json.str ("seq-" ++ r.tag)), ("wf", WF genEnv), ("model_holds", r.modelHolds)]
+      | _, _ => throw "impl_seq does not match targets"
+    let rs := (targets.zip obss).map (fun p => judge sub p.1 p.2 none)
+    let firstBad := (rs.zipIdx.find? (fun p => !p.1.holds)).map (·.2)
+    return Json.mkObj [("agree", rs.all (·.agree)), ("holds", rs.all (·.holds)),
+      ("model", Json.arr (rs.map (fun r => obsToJson r.model)).toArray),
+      ("branch", Json.str ("seq-" ++ (match rs.getLast? with | some r => r.tag | none => "empty"))),
+      ("first_failing_call", match firstBad with | some i => toJson i | none => Json.null),
+      ("wf", WF genEnv), ("model_holds", rs.all (·.modelHolds))]
+  let target ← vOfJson (← j.getObjVal? "target")
+  let implObs ← obsOfJson (← j.getObjVal? "impl")
+  let bare ← optField j "impl_bare" obsOfJson
+  let r := judge sub target implObs bare
+  return Json.mkObj [("agree", r.agree), ("holds", r.holds), ("model", obsToJson r.model),
+    ("branch", r.tag), ("wf", WF genEnv), ("model_holds", r.modelHolds)]
 
 end Glom.C10.Driver
